@@ -136,7 +136,8 @@ def parseTcpPeer (s : String) : Option TcpPeer :=
 /-- what the peer's script makes the client's first `read_to_end` see -/
 def streamOf : List Act → Nat → Stream
   | [], _ => .closed
-  | .write n :: rest, k => .data (peerPattern n k) (streamOf rest (k + 1))
+  -- (a write of no bytes puts nothing on the wire)
+  | .write n :: rest, k => if n == 0 then streamOf rest (k + 1) else .data (peerPattern n k) (streamOf rest (k + 1))
   | .pause _ :: rest, k => streamOf rest k
   | .read _ :: rest, k => streamOf rest k
   | .close :: _, _ => .closed
